@@ -2,28 +2,26 @@
 src/tree_data_sorted.c against coq/RBTree.v + coq/Sorted.v (driver impl/t_sorted.c, model ocaml/run_sorted.ml).
 
 Components (Comp):  RbStatic   `rbs <every> <ops>`                 the static rb_insert_node / rb_remove / rb_find on free nodes
-                    LydsApi    `lyds <type> <place> <every> <ops>` one system-ordered (leaf-)list through the public API: insert,
-                                                                   LAST append, unlink, free, re-insert, find, and duplication of a
-                                                                   source list into the parent (lyd_dup_siblings / lyd_dup_single,
-                                                                   WITH_PARENTS, NO_LYDS) into 0 / 1 / >= 2 instances with and
-                                                                   without a sorting tree (Sorted.lyds_dup), and lyd_merge_tree /
-                                                                   lyd_merge_siblings with and without LYD_MERGE_DESTRUCT of a source
-                                                                   list (g<o>; Sorted.lyd_merge_list: lyds_pool_add, lyds_insert2,
-                                                                   lyds_additionally_reuse_rb_tree, the pool running dry anywhere)
-Oracles:            SortedOrder  `lyds` lines (also with ops that are NOT in the Coq model: s<i> = lyd_unlink_siblings -> lyds_split,
-                                 m = insert the chain again -> lyds_merge, p<o> at top level = duplicates without parent + lyd_insert_sibling) judged on the
-                                 implementation alone against a Python model of the abstract sequence semantics (SeqModel)
+                    LydsApi    `lyds <type> <place> <every> <ops>` one system-ordered (leaf-)list through the public API, every op
+                               of the driver against the extracted Coq model (Sorted.v): insert, LAST append, unlink, free, re-insert,
+                               find; duplication of a source list into the parent (lyd_dup_siblings / lyd_dup_single, WITH_PARENTS,
+                               NO_LYDS; at top level duplicates without parent + lyd_insert_sibling) - Sorted.lyds_dup;
+                               lyd_merge_tree / lyd_merge_siblings with and without LYD_MERGE_DESTRUCT (g<o>) - Sorted.lyd_merge_list;
+                               lyd_unlink_siblings (s<i>) - Sorted.lyds_split; lyd_insert_child / lyd_insert_sibling of the chain
+                               (m) - Sorted.lyds_merge (lyds_merge_nodes1 / 2 / 3)
+Oracles:            SortedOrder  the same `lyds` lines judged on the implementation alone against a Python model of the abstract
+                                 sequence semantics (SeqModel), incl. source lists with equal keys for lyd_merge (not in the Coq model)
                     SiblingOrder `sib` lines: ALL children of one parent (leaves, system-ordered leaf-list, user-ordered list and
                                  leaf-list, opaque nodes; with / without children hash table; container / top level) under create,
                                  lyd_insert_after / lyd_insert_before (every pair incl. first <-> last wrap-around), free, unlink,
-                                 re-insert, judged against a list model (SibModel): schema order, user order as established, data
-                                 nodes before opaque nodes, lyd_find_sibling_first / _val / _opaq_next = scan
+                                 re-insert, judged against a list model (SibModel, Python only): schema order, user order as
+                                 established, data nodes before opaque nodes, lyd_find_sibling_first / _val / _opaq_next = scan
 Findings of this slice: lyds_merge_nodes2 read *next_p uninitialised (fixed /repo cefb23b, MERGE_REGRESS); lyd_dup appended duplicates
-behind existing instances outside the sorting tree (seed agent's finding, fixed /repo d989bef; follow-up 03a093d: the append path is kept
-for all further duplicates when the first one is alone; DUP_REGRESS).
+behind existing instances outside the sorting tree (seed agent's finding, fixed /repo d989bef; follow-up 03a093d; DUP_REGRESS).
 Not explored on purpose: an OPAQUE node moved among data nodes by lyd_insert_after/before (allowed by the API; lyd_find_sibling_opaq_next
 then asserts `opaque nodes are last`), lyd_insert_sibling of several nodes into instances that were appended UNSORTED as ordered input
-(lyds_merge_nodes2_among walks into NULL), LYD_DUP_NO_LYDS into a parent whose list already has a sorting tree (by contract of the flag).
+(lyds_merge_nodes2_among walks into NULL; Sorted.lyds_merge answers None), LYD_DUP_NO_LYDS into a parent whose list already has a
+sorting tree (by contract of the flag).
 
 After EVERY op both sides print `result/dump/inv`: the dump is the sibling order, the pre-order of the red-black tree with
 colours (same algorithm => same SHAPE, compared exactly), the metadata owner and the pool of unlinked nodes; inv is the
@@ -287,6 +285,55 @@ def dup_scripts(rng, thorough, places, model):
     return L
 
 
+def split_merge_scripts(rng, thorough):
+    """histories with s<i> / m (Sorted.lyds_split, Sorted.lyds_merge): the chain with / without tree (s0 / s>0) meets a target
+    with / without tree (inserted / appended SORTED - lyds_merge_nodes2 needs a sorted target - / a single instance / none),
+    duplicate keys included, followed by further edits"""
+    L = []
+    for _ in range(6000 if thorough else 600):
+        t, p = rng.choice(TYPES), rng.choice(PLACES)
+        nk = rng.choice([3, 6, 40])
+        ops, live, chain, pool = [], 0, 0, 0
+        for _ in range(rng.choice([8, 20, 60])):
+            x = rng.random()
+            k = rng.randrange(-(nk // 2), nk - nk // 2)
+            if x < 0.42 or live == 0 and not chain:
+                ops.append("i%d" % k)
+                live += 1
+            elif x < 0.5 and live:
+                ops.append("d%d" % rng.randrange(live))
+                live -= 1
+            elif x < 0.55 and live:
+                ops.append("u%d" % rng.randrange(live))
+                live -= 1
+                pool += 1
+            elif x < 0.58 and pool:
+                ops.append("r%d" % rng.randrange(pool))
+                pool -= 1
+                live += 1
+            elif x < 0.8 and live and not chain:
+                i = rng.choice([0, 0, live - 1, rng.randrange(live)])
+                ops.append("s%d" % i)
+                chain = live - i
+                live = i
+            elif chain:
+                ops.append("m")
+                live += chain
+                chain = 0
+            else:
+                ops.append("q%d" % k)
+        L.append("lyds\t%s\t%s\t1\t%s" % (t, p, " ".join(ops)))
+    # target appended in order without tree (sorted), chain with tree: lyds_merge_nodes2 front / among / back
+    for _ in range(3000 if thorough else 300):
+        t, p = rng.choice(TYPES), rng.choice(["c0", "c1", "t0", "t1"])
+        ck = [rng.randrange(-6, 7) for _ in range(rng.randrange(2, 7))]
+        tk = sorted(rng.randrange(-6, 7) for _ in range(rng.randrange(1, 6)))
+        ops = ["i%d" % k for k in ck] + ["s0"] + ["a%d" % k for k in tk] + ["m"] + \
+            rng.choice([["i0"], ["d0", "q%d" % ck[0]], ["s1", "i3", "m"], ["u0", "r0", "s0", "m"]])
+        L.append("lyds\t%s\t%s\t1\t%s" % (t, p, " ".join(ops)))
+    return L
+
+
 def merge_scripts(rng, thorough):
     """target of nt instances (appended without tree - sorted or not -, or inserted with tree), source of ns instances (with tree
     when ns >= 2 and built by sorted inserts; without when appended), keys distinct inside each list, all overlaps"""
@@ -395,10 +442,12 @@ class LydsApi(_Base):
                         L.append("lyds\t%s\t%s\t1\t%s" % (t, p, " ".join(list(pre) + list(s))))
         # duplication into the parent (lyd_dup_siblings / lyd_dup_single, with WITH_PARENTS, NO_LYDS) of a source list built
         # by sorted inserts (c) / appends (C), into 0, 1, >= 2 existing instances with and without a sorting tree, then edits
-        L += dup_scripts(rng, thorough, ["c0", "c1", "c2"], model=True)
+        L += dup_scripts(rng, thorough, PLACES, model=True)
         # lyd_merge_tree / lyd_merge_siblings with and without LYD_MERGE_DESTRUCT (Sorted.lyd_merge_list: lyds_pool_add,
         # lyds_insert2, lyds_additionally_reuse_rb_tree with the pool running dry at every point)
         L += merge_scripts(rng, thorough)
+        # lyd_unlink_siblings (lyds_split) and lyd_insert_child / lyd_insert_sibling of the chain (lyds_merge, all four cases)
+        L += list(MERGE_REGRESS) + split_merge_scripts(rng, thorough)
         # random long scripts
         for i in range(self.n(tier, 18, 400, scale)):
             t, p = rng.choice(combos)
